@@ -15,7 +15,8 @@ CLAIMS = {
          "bijection invariant instantiated at every read, post-conditions at skolem indices; plus short symbolic histories.", "§6 C18"),
  "C06": ("Every signature / port-kind / output-count rule of the statement as one lemma per operation class: rows are lists of pairwise "
          "distinct type atoms with symbolic lengths (0..2 quick, 0..3 thorough), port offsets symbolic over the whole row plus the order port; "
-         "Call/LoadFunction with an instantiation whose arity is independent of the polymorphic body.", "§6 C06"),
+         "Call/LoadFunction with an instantiation whose arity is independent of the polymorphic body. Additionally the container / TailLoop / Conditional / "
+         "block / Tag / CallIndirect / Call / LoadFunction rules over rows of UNBOUNDED length and arbitrary element types (z3 sequences).", "§6 C06"),
  "C07": ("Leaf bounds are symbolic enum values, so one path covers every Copyable/Any assignment; shapes (sum forms, row counts/lengths, "
          "from-params index lists, std containers) enumerated by the solver within the stated bounds.", "§6 C07"),
  "C09": ("Header decoder over every input of 0..12 symbolic bytes (all truncations, all magic values, all 2^16 format/flag pairs) and header "
